@@ -142,6 +142,7 @@ pub fn sweep(ctx: &Ctx, label: &str, pool: &[PoolName], k: usize, params: &TreeP
     let both = ctx.tier == crate::ctx::Tier::Thorough || (params.root_from_subset && params.max_decorated >= 2);
     let presets: &[Preset] = if both { &[Preset::QuickXml, Preset::SerdeXmlRs] } else { &[Preset::QuickXml] };
     let subs = subsets(pool.len(), k);
+    let started = std::time::Instant::now();
     let res = par_for(
         subs.len() as u64,
         ctx.threads,
@@ -223,7 +224,7 @@ pub fn sweep(ctx: &Ctx, label: &str, pool: &[PoolName], k: usize, params: &TreeP
     }
     ctx.push(
         "sweeps",
-        json!({"sweep": label, "pool": pool.len(), "subset_size": k, "subsets": subs.len(), "subsets_done": res.processed,
+        json!({"sweep": label, "wall_s": (started.elapsed().as_secs_f64() * 10.0).round() / 10.0, "pool": pool.len(), "subset_size": k, "subsets": subs.len(), "subsets_done": res.processed,
                "nodes": [params.min_nodes, params.max_nodes], "decorated_nodes_max": params.max_decorated,
                "root_from_subset": params.root_from_subset, "split_into_two_documents": with_split,
                "histories": evals, "distinct_renderings": distinct.len()}),
@@ -480,7 +481,7 @@ pub fn run(ctx: &Ctx) {
             sweep(ctx, "2-subsets, 3 nodes, <=1 decorated", &pool, 2,
                   &TreeParams { min_nodes: 3, max_nodes: 3, max_decorated: 1, root_from_subset: false, shard: (0, 1) }, true);
             sweep(ctx, "2-subsets, <=2 nodes, <=2 decorated, root named from the subset", &pool, 2,
-                  &TreeParams { min_nodes: 0, max_nodes: 2, max_decorated: 2, root_from_subset: true, shard: (0, 1) }, true);
+                  &TreeParams { min_nodes: 0, max_nodes: 2, max_decorated: 2, root_from_subset: true, shard: (0, 1) }, false);
             sweep(ctx, "2-subsets, 4 nodes, undecorated", &pool, 2,
                   &TreeParams { min_nodes: 4, max_nodes: 4, max_decorated: 0, root_from_subset: false, shard: (0, 1) }, false);
             chains(ctx, &pool, 5);
